@@ -251,8 +251,21 @@ func isNilErrReturn(r *ssa.Return) bool {
 		return true
 	}
 	last := r.Results[len(r.Results)-1]
-	cst, ok := last.(*ssa.Const)
-	return ok && cst.Value == nil
+	// functions with defers spill their results into locals: look through the load
+	orig := engine.Origins(last)
+	if len(orig) == 0 {
+		return false
+	}
+	for _, o := range orig {
+		if o == nil {
+			continue
+		}
+		cst, ok := o.(*ssa.Const)
+		if !ok || cst.Value != nil {
+			return false
+		}
+	}
+	return true
 }
 
 // constIs reports whether v is the given named constant.
